@@ -344,3 +344,31 @@ pub fn wasm_format(src: &str, max_columns: Option<usize>) -> Option<String> {
     let _ = crate::wasm_lib::format_blots(src, max_columns);
     crate::wasm_lib::verif_hooks::take()
 }
+
+thread_local! {
+    static PARSE_CACHE: RefCell<std::collections::HashMap<String, Result<(Rc<SpannedExpr>, Rc<str>), String>>> =
+        RefCell::new(std::collections::HashMap::new());
+}
+
+/// parse a single-expression source once per thread (for fixed probe expressions)
+pub fn parse_cached(src: &str) -> Result<(Rc<SpannedExpr>, Rc<str>), String> {
+    PARSE_CACHE.with(|c| {
+        let mut c = c.borrow_mut();
+        if let Some(r) = c.get(src) {
+            return r.clone();
+        }
+        let r = parse_expr(src).map(|e| (Rc::new(e), Rc::<str>::from(src)));
+        if c.len() < 10_000 {
+            c.insert(src.to_string(), r.clone());
+        }
+        r
+    })
+}
+
+impl Sess {
+    /// evaluate a fixed probe expression (parsed once per thread) and observe it
+    pub fn probe(&self, src: &str) -> Obs {
+        let (e, rc) = parse_cached(src)?;
+        self.obs_ast(&e, &rc)
+    }
+}
